@@ -90,7 +90,10 @@ def rat_pair(x):
 
 def float_rat_pair(x, max_den=10 ** 6):
     """encoder (i) of DESIGN 2.3: float -> small rational, or None when it is not one to 1e-12"""
-    x = float(x)
+    try:
+        x = float(x)
+    except Exception:       # complex, None, wrong type: not a small rational
+        return None
     if not math.isfinite(x):
         return None
     f = Fraction(x).limit_denominator(max_den)
@@ -125,13 +128,19 @@ def internal_state(ns, name, conc, params):
 
 
 def roundtrip_error(ns, y, conc, params):
-    """max relative deviation of post_processor(y) from conc (0 when there is no post_processor)"""
+    """max relative deviation of post_processor(y) from conc beyond an absolute 1e-15 (NumSysLog's
+    pre_processor adds its `small` = 2.3e-16 by design); 0 when there is no post_processor"""
     import numpy as np
     if ns.post_processor is None:
         back = [float(v) for v in y]
     else:
         back, _ = ns.post_processor(np.array([float(v) for v in y]), np.array([float(p) for p in params]))
-    return max(abs(float(b) - float(ci)) / max(abs(float(ci)), 1e-300) for b, ci in zip(back, conc))
+    worst = 0.0
+    for b, ci in zip(back, conc):
+        d = abs(float(b) - float(ci))
+        if not d <= 1e-15:   # also true for nan
+            worst = max(worst, d / max(abs(float(ci)), 1e-300)) if d == d else float("inf")
+    return worst
 
 
 def classify_residual(f, tolz, tolnz):
@@ -140,10 +149,16 @@ def classify_residual(f, tolz, tolnz):
     import sympy
     mags = []
     for fi in f:
-        v = sympy.N(fi, 50) if isinstance(fi, sympy.Basic) else sympy.Float(float(fi))
-        if v.is_real is False or v.has(sympy.nan) or v.has(sympy.zoo):
+        try:
+            v = sympy.N(fi, 50) if isinstance(fi, sympy.Basic) else sympy.Float(float(fi))
+            if v.is_real is False or v.has(sympy.nan) or v.has(sympy.zoo):
+                return "undefined", None
+            m = abs(float(v))
+        except Exception:   # complex, symbolic, None ...: the residual is not a real number
             return "undefined", None
-        mags.append(abs(float(v)))
+        if m != m:
+            return "undefined", None
+        mags.append(m)
     big = max(mags) if mags else 0.0
     if big < 10.0 ** -tolz:
         return "zero", big
@@ -179,7 +194,10 @@ def enc_vec(xs, scale_exp):
     h, lo, ln, pos = [], [], [], []
     clipped = False
     for x in xs:
-        x = float(x)
+        try:
+            x = float(x)
+        except Exception:   # complex, None, wrong type: travels as "not a number"
+            x = float("nan")
         if not math.isfinite(x):
             clipped = True
             h.append(0), lo.append(0), ln.append(0), pos.append(False)
